@@ -5,6 +5,7 @@ package arvados
 import (
 	"encoding/hex"
 	"fmt"
+	"os"
 	"runtime"
 	"sort"
 	"strings"
@@ -25,6 +26,7 @@ type cfsCtl struct {
 	initTxt string
 	initTab [][2]string // (hex data, locator) of the blocks of the initial manifest
 	dirty   bool        // a save has failed: only read-only operations until the next successful save
+	dead    bool        // an operation did not return: the history ends
 }
 
 func cfsBytes(b []byte) string { return `(B "` + hex.EncodeToString(b) + `")` }
@@ -41,8 +43,8 @@ func newCfsCtl(t *testing.T, r *vRand, mb int, gated bool, initTxt string, initB
 	if err != nil {
 		t.Fatalf("load %q: %v", initTxt, err)
 	}
-	// the write throttle is not part of the model: make it wide enough never to block
-	fs.(*collectionFileSystem).fileSystem.thr = newThrottle(100000)
+	// The write throttle (4 slots) is real.  It is not part of the model: when an operation is blocked
+	// waiting for a slot the controller lets the oldest parked Keep write return (see runOp).
 	kc.gated = gated
 	c.se = &cfsSess{t: t, fs: fs, mb: mb, tagset: map[string]bool{}}
 	runtime.Gosched()
@@ -67,17 +69,77 @@ func (c *cfsCtl) settle() {
 	}
 }
 
+// runOp runs one foreground call.  While it has not returned: if every throttle slot is held by a
+// write parked in the fake Keep and nothing moves, the call (or a goroutine it waits for) is waiting for
+// a slot, and the oldest parked write is released.  Its result can only be installed after the call
+// returns (the call holds the node lock) or concerns another file (commutes), so the completion is
+// logged after the call's own event; releasing early on a wrong guess is harmless for the same reason.
+// A call that does not return within the deadline is a deadlock.
+func (c *cfsCtl) runOp(f func()) {
+	done := make(chan struct{})
+	go func() { defer close(done); f() }()
+	var deferred [][]byte
+	deadline := time.Now().Add(30 * time.Second)
+	stable, lastN, lastW := 0, -1, -1
+	for {
+		select {
+		case <-done:
+			c.settle()
+			for _, d := range deferred {
+				c.events = append(c.events, "ECompleteData "+cfsBytes(d))
+				c.desc = append(c.desc, fmt.Sprintf("complete write(s) of %d bytes (released while the call above was waiting for a throttle slot)", len(d)))
+				c.se.tag("complete-throttle")
+			}
+			return
+		case <-time.After(200 * time.Microsecond):
+		}
+		n := runtime.NumGoroutine() - c.base - 1
+		w := c.kc.nwaiting()
+		if w >= concurrentWriters && n == lastN && w == lastW {
+			stable++
+			if stable >= 10 {
+				c.kc.mtx.Lock()
+				d := c.kc.waiting[0].data
+				c.kc.mtx.Unlock()
+				c.kc.releaseData(d)
+				deferred = append(deferred, d)
+				stable = 0
+			}
+		} else {
+			stable = 0
+		}
+		lastN, lastW = n, w
+		if time.Now().After(deadline) {
+			c.events = append(c.events, `EOp (OStat "DEADLOCK: the previous call did not return") (VUnit)`)
+			c.desc = append(c.desc, fmt.Sprintf("DEADLOCK: call did not return within 30 s (%d goroutines, %d parked in PutB)", n+1, w))
+			c.se.tag("deadlock")
+			if os.Getenv("VERIF_DEBUG") != "" {
+				buf := make([]byte, 1<<20)
+				buf = buf[:runtime.Stack(buf, true)]
+				fmt.Fprintf(os.Stderr, "=== DEADLOCK goroutines ===\n%s\n", buf)
+			}
+			c.dead = true
+			return
+		}
+	}
+}
+
 func (c *cfsCtl) addOp(op, ob, d string) {
 	c.events = append(c.events, "EOp ("+op+") ("+ob+")")
 	c.desc = append(c.desc, d+" => "+ob)
 }
 
 func (c *cfsCtl) foreground(focus bool, i int) {
-	c.se.randomOp(c.r, focus, i, c.dirty, c.addOp)
-	c.settle()
+	if c.dead {
+		return
+	}
+	c.runOp(func() { c.se.randomOp(c.r, focus, i, c.dirty, c.addOp) })
 }
 
 func (c *cfsCtl) completeOne() {
+	if c.dead {
+		return
+	}
 	c.kc.mtx.Lock()
 	if len(c.kc.waiting) == 0 {
 		c.kc.mtx.Unlock()
@@ -115,21 +177,28 @@ func (c *cfsCtl) setMode(m int) {
 }
 
 func (c *cfsCtl) flush(path string, short bool) {
-	err := c.se.fs.Flush(path, short)
-	c.settle()
-	ob := "VUnit"
-	if err != nil {
-		ob = c08ErrObs(err)
+	if c.dead {
+		return
 	}
-	c.events = append(c.events, fmt.Sprintf("EFlush %s %s (%s)", gStr(path), gBool(short), ob))
-	c.desc = append(c.desc, fmt.Sprintf("flush %q short=%v => %s", path, short, ob))
-	c.se.tag("flush")
+	c.runOp(func() {
+		err := c.se.fs.Flush(path, short)
+		ob := "VUnit"
+		if err != nil {
+			ob = c08ErrObs(err)
+		}
+		c.events = append(c.events, fmt.Sprintf("EFlush %s %s (%s)", gStr(path), gBool(short), ob))
+		c.desc = append(c.desc, fmt.Sprintf("flush %q short=%v => %s", path, short, ob))
+		c.se.tag("flush")
+	})
 }
 
 // marshal saves synchronously.  Writes still in flight are completed first (the save would wait
 // for them); a save is only attempted in failure modes 0 and 1 (with per-block outcomes the set of
 // blocks written by a failing save depends on goroutine timing).
 func (c *cfsCtl) marshal() (string, bool) {
+	if c.dead {
+		return "", false
+	}
 	c.completeAll()
 	if c.kc.mode > 1 {
 		c.setMode(c.r.Intn(2))
@@ -137,11 +206,15 @@ func (c *cfsCtl) marshal() (string, bool) {
 	c.kc.mtx.Lock()
 	c.kc.syncNow = true
 	c.kc.mtx.Unlock()
-	txt, err := c.se.fs.MarshalManifest(".")
+	var txt string
+	var err error
+	c.runOp(func() { txt, err = c.se.fs.MarshalManifest(".") })
 	c.kc.mtx.Lock()
 	c.kc.syncNow = false
 	c.kc.mtx.Unlock()
-	c.settle()
+	if c.dead {
+		return "", false
+	}
 	if err != nil {
 		c.events = append(c.events, "EMarshal MErr")
 		c.desc = append(c.desc, "save => error "+err.Error())
@@ -158,11 +231,17 @@ func (c *cfsCtl) marshal() (string, bool) {
 
 // finish completes everything, saves without failures and reads every file back.
 func (c *cfsCtl) finish() string {
+	if c.dead {
+		return ""
+	}
 	c.completeAll()
 	if c.kc.mode != 0 {
 		c.setMode(0)
 	}
 	txt, ok := c.marshal()
+	if c.dead {
+		return ""
+	}
 	if !ok {
 		c.t.Fatalf("final save failed")
 	}
